@@ -234,14 +234,24 @@ func TemplateSet(id uint16, fields []ref.Field, path int) (entities.Set, error) 
 }
 
 func addRecord(set entities.Set, els []entities.InfoElementWithValue, id uint16, path int) error {
+	var err error
 	switch path {
-	case PathExtra:
-		return set.AddRecordWithExtraElements(els, 3, id)
 	case PathV2:
-		return set.AddRecordV2(els, id)
+		return set.AddRecordV2(els, id) // adopts the caller's slice (documented)
+	case PathExtra:
+		err = set.AddRecordWithExtraElements(els, 3, id)
+	default:
+		err = set.AddRecord(els, id)
 	}
-	return set.AddRecord(els, id)
+	// the copying paths leave the caller free to refill its slice for the next record; applications
+	// do (one scratch slice per template), so the harness does too
+	for i := range els {
+		els[i] = poison
+	}
+	return err
 }
+
+var poison = glue.Element(entities.NewInfoElement("poison", 999, entities.Unsigned64, 55555, 8), ref.TU64, ref.Value{U: 0xDEADBEEFDEADBEEF})
 
 // Elements builds the library's elements for one record.
 func Elements(fields []ref.Field, vals []ref.Value) []entities.InfoElementWithValue {
@@ -318,7 +328,8 @@ func DataSetReusing(set entities.Set, els []entities.InfoElementWithValue, id ui
 	}
 	for _, r := range recs {
 		fill(r)
-		if err := addRecord(set, els, id, path); err != nil {
+		// the application keeps its element objects; the slice handed over is a scratch copy
+		if err := addRecord(set, append([]entities.InfoElementWithValue(nil), els...), id, path); err != nil {
 			return nil, err
 		}
 	}
